@@ -837,3 +837,39 @@ pub fn random_bytes(r: &mut Rng) -> Vec<u8> {
     }
     b
 }
+
+/// A stream that is NOT conformant but that the crate's decoders accept: a run container whose runs overlap, repeat or
+/// are listed out of order (the decoder replays runs through `insert_range`, which merges them). The sum of the run
+/// lengths and the number of distinct values are steered to opposite sides of / exactly onto the 4096 array limit, so a
+/// decoder that picks the container kind from the SUM instead of the real cardinality is exposed. The declared
+/// cardinality is the real one. Returns the bytes, the set, and a description.
+pub fn overlapping_runs_stream(r: &mut Rng) -> (Vec<u8>, Vec<u32>, String) {
+    let target_union = *r.pick(&[4095u32, 4096, 4096, 4097, 3000, 6000, 100]);
+    let a = r.below(20000) as u32;
+    // two or three runs covering a .. a + target_union - 1 with overlaps
+    let cut1 = r.range(1, (target_union - 1).max(1) as u64) as u32;
+    let back = r.range(0, cut1 as u64).min(3000) as u32; // the second run starts `back` values before the first ends
+    let mut runs: Vec<(u16, u16)> = Vec::new();
+    runs.push((a as u16, (cut1 - 1) as u16));
+    let s2 = a + cut1 - back;
+    runs.push((s2 as u16, (a + target_union - 1 - s2) as u16));
+    match r.below(5) {
+        0 => runs.push(runs[0]),                          // a repeated run
+        1 => runs.push((a as u16, (target_union - 1) as u16)), // one run covering everything, listed last
+        2 => runs.swap(0, 1),                             // out of order
+        _ => {}
+    }
+    let vals: Vec<u16> = (a..a + target_union).map(|x| x as u16).collect();
+    let key = *r.pick(&[0u16, 1, 7, 0xFFFF]);
+    let mut chunks: Vec<Chunk> = Vec::new();
+    if r.chance(1, 2) && key > 0 {
+        chunks.push(Chunk { key: 0, vals: vec![3, 4, 9], runs: None });
+    }
+    chunks.push(Chunk { key, vals, runs: Some(runs.clone()) });
+    if r.chance(1, 2) && key < 0xFFFF {
+        chunks.push(Chunk { key: 0xFFFF, vals: vec![65535], runs: None });
+    }
+    let (bytes, _) = encode(&chunks, true);
+    let sum: u32 = runs.iter().map(|&(_, l)| l as u32 + 1).sum();
+    (bytes, set_of(&chunks), format!("overlapping-runs union={} sum-of-lengths={} runs={}", target_union, sum, runs.len()))
+}
